@@ -10,9 +10,10 @@ import (
 )
 
 type voxel2 struct {
-	n    [2]int
-	v    float64
-	bits []bool
+	n      [2]int
+	v      float64
+	bits   []bool
+	closed bool
 }
 
 func (s *voxel2) Min() model2d.Coord { return model2d.Coord{} }
@@ -21,6 +22,15 @@ func (s *voxel2) Max() model2d.Coord {
 }
 func (s *voxel2) Contains(c model2d.Coord) bool {
 	i, j := int(math.Floor(c.X/s.v)), int(math.Floor(c.Y/s.v))
+	if s.closed {
+		m := s.Max()
+		if c.X == m.X {
+			i--
+		}
+		if c.Y == m.Y {
+			j--
+		}
+	}
 	if i < 0 || j < 0 || i >= s.n[0] || j >= s.n[1] {
 		return false
 	}
@@ -200,12 +210,21 @@ func emitMS(c *hlib.Ctx, s model2d.Solid, delta float64, big bool, c2f []float64
 }
 
 func randVoxel2(c *hlib.Ctx, n [2]int, v float64) *voxel2 {
-	return &voxel2{n: n, v: v, bits: randBits(c, n[:], "c12.ms")}
+	return &voxel2{n: n, v: v, bits: randBits(c, n[:], "c12.ms"), closed: c.Rng.Intn(3) == 0}
 }
 
 func runMS(c *hlib.Ctx) {
 	nSolids := c.N/6 + 2
 	for i := 0; i < nSolids; i++ {
+		if i%8 == 3 {
+			// large spacing ratio for coarse-to-fine (see runMC)
+			delta := 1.0 / 16
+			m := []int{24, 32}[c.Rng.Intn(2)]
+			n := [2]int{1 + c.Rng.Intn(3), 1 + c.Rng.Intn(3)}
+			emitMS(c, randVoxel2(c, n, float64(m)*delta), delta, false,
+				[]float64{float64(m) * delta, float64(m/2) * delta, float64(m) * delta}, "voxel_fat_c2f_high_ratio")
+			continue
+		}
 		switch c.Rng.Intn(8) {
 		case 0, 1:
 			emitMS(c, randVoxel2(c, [2]int{1 + c.Rng.Intn(8), 1 + c.Rng.Intn(8)}, 1), 1, false, nil, "voxel_small")
